@@ -106,6 +106,9 @@ def execute(script):
     saved_open, saved_os = wallet_mod.__dict__.get('open'), wallet_mod.os
     wallet_mod.open = fs.open
     wallet_mod.os = fs.os_shim()
+    import random as _random
+    saved_wrandom = wallet_mod.random
+    wallet_mod.random = _random.Random(script.get('seed', 0) ^ 0x5eed)     # hand-outs from an exhausted pool pick a key at random
     entropy.install(script.get('seed', 0))
     threads = []
     try:
@@ -368,11 +371,14 @@ def execute(script):
             # the networking thread completes what it had started
             while half_closed:
                 v_ = half_closed.pop()
+                k.current = node            # (the node's clock and randomness: this is the node's own thread at work)
                 try:
                     v_.sock.close()
                     node.lp.network_manager.handle_peer_disconnected(v_)
                 except Exception:
                     pass
+                finally:
+                    k.current = None
 
         for op in script['ops']:
             if res.violations or stop['now'] or node.loop_error:
@@ -464,7 +470,11 @@ def execute(script):
                 act = [p_ for p_ in nm.connected_peers.values() if p_.hello_sent and p_.hello_received and p_.sock in node.lp.selector.get_map()]
                 if len(act) >= 2 and not half_closed:
                     victim = act[op.get('which', 0) % (len(act) - 1)]      # not the last one: a healthy peer comes after it
-                    node.lp.selector.unregister(victim.sock)
+                    k.current = node
+                    try:
+                        node.lp.selector.unregister(victim.sock)
+                    finally:
+                        k.current = None
                     half_closed.append(victim)
                     for b_ in w.bots:
                         for c_ in b_.conns:
@@ -497,6 +507,7 @@ def execute(script):
         else:
             wallet_mod.open = saved_open
         wallet_mod.os = saved_os
+        wallet_mod.random = saved_wrandom
         w.close()
     res.digest = w.trace.digest()
     return res
